@@ -379,6 +379,40 @@ def tiff_layout(prog, res, rule="R-TIFF-LAYOUT"):
                   "Tiff::start does not set last_offset_ to sizeof(header): the first directory is not where the header's first_ifd points")
 
 
+def metadata_file(prog, res, rule="R-TIFF-LAYOUT"):
+    """tiff-json: metadata.json receives the user's JSON without its
+    terminator: the write is [s.str, s.str + s.nbytes - 1) for one String s,
+    at offset 0, and the file is closed on every path after it was created."""
+    from .. import linear as L
+    f = prog.func("side_by_side_tiff_start")
+    res.touched(f)
+    fw = [(b.id, i, c) for b, i, st_ in f.all_stmts() for c in ir.calls_in(st_) if c.get("fn") == "file_write"]
+    inst = "side_by_side_tiff_start: metadata.json is the metadata string without its terminator"
+    ok = len(fw) == 1
+    why = "expected one file_write for metadata.json"
+    if ok:
+        a = fw[0][2]["args"]
+        beg, end = ir.strip(a[2]), ir.strip(a[3])
+        sb = [y for y in ir.walk(beg) if y.get("k") == "mem" and y.get("f") == "str"]
+        an = L.Analysis(prog)
+        an.inline = False
+        st0 = L.State()
+        vb = an.eval(f, beg, st0)[0][0]
+        ve = an.eval(f, end, st0)[0][0]
+        owner = ir.ap(sb[0]["b"]) if sb else None
+        nb = None
+        for y in ir.walk(end):
+            if y.get("k") == "mem" and y.get("f") == "nbytes" and ir.ap(y["b"]) == owner:
+                nb = an.eval(f, y, st0)[0][0]
+        ok = owner is not None and nb is not None and L.lsub(L.lsub(ve, vb), L.lsub(nb, L.lconst(1))) == {} and ir.is_const(a[1], 0)
+        why = "the bytes written are not [str, str + nbytes - 1) of one string at offset 0 (extent %s)" % L.lshow(L.lsub(ve, vb))
+    if ok:
+        res.oblige(rule, inst, True, "", f.loc())
+    else:
+        res.fail(rule, inst, "%s|metadata-json" % rule, f.loc(),
+                 "side_by_side_tiff_start: %s: metadata.json ends in a NUL byte or loses its last character and is not valid JSON" % why)
+
+
 def format_literals(prog, res):
     """Description strings: whatever reaches the format parameter of the
     printf family in tiff.cpp is a string literal; frame ids, timestamps and the
@@ -444,6 +478,7 @@ def run(ctx, res):
     for g in sets:
         adopt.rule_set_adopts(prog, res, g)
     res.guard(tiff_layout, prog, res)
+    res.guard(metadata_file, prog, res)
     res.require_min("R-TIFF-LAYOUT", 18)
     res.require_min("R-SET-ADOPTS", 1)
     res.require_min("FINALISE-SIM", 2)
